@@ -302,10 +302,33 @@ pub enum ItemBody {
     Enum(Vec<VariantDef>),
 }
 
+thread_local! {
+    /// while `Some`, field types are rendered as `$t<K>` macro fragments and collected here (see `render_via_macro`)
+    static MACRO_TYS: std::cell::RefCell<Option<Vec<String>>> = const { std::cell::RefCell::new(None) };
+}
+
+/// The item as it looks when a declarative macro produces it: every field type is a `$t:ty` fragment, so the derive sees
+/// it wrapped in a `None`-delimited group (`syn::Type::Group`).
+pub fn render_via_macro(item: &Item, with_dm: bool) -> String {
+    MACRO_TYS.with(|m| *m.borrow_mut() = Some(vec![]));
+    let body = item.render(with_dm);
+    let tys = MACRO_TYS.with(|m| m.borrow_mut().take()).unwrap_or_default();
+    let params: Vec<String> = (0..tys.len()).map(|k| format!("$t{k}:ty")).collect();
+    format!("macro_rules! __dm_item {{ ({}) => {{ {body} }}; }}\n__dm_item!({});", params.join(", "), tys.join(", "))
+}
+
 fn render_fields(fs: &[FieldDef], named: bool, with_dm: bool) -> String {
     let parts: Vec<String> = fs
         .iter()
         .map(|f| {
+            let ty = MACRO_TYS.with(|m| match m.borrow_mut().as_mut() {
+                Some(v) => {
+                    v.push(f.ty.clone());
+                    format!("$t{}", v.len() - 1)
+                }
+                None => f.ty.clone(),
+            });
+            let f = &FieldDef { ty, attrs: f.attrs.clone(), std_attrs: f.std_attrs.clone(), name: f.name.clone() };
             let mut s = String::new();
             for a in &f.std_attrs {
                 s.push_str(a);
@@ -1542,9 +1565,20 @@ pub fn build_item_pub(d: &mut Dice) -> (Item, Vec<String>, Vec<String>) {
 }
 
 fn build(d: &mut Dice) -> GenCase {
-    let (item, labels, extra) = build_item(d);
-    let body = format!("{}\n{}", extra.join("\n"), item.render(true));
-    let control = format!("{}\n{}", extra.join("\n"), item.render(false));
+    let (item, mut labels, extra) = build_item(d);
+    // now and then the whole item comes out of a `macro_rules!` whose `$t:ty` fragments are the field types
+    let has_fields = match &item.body {
+        ItemBody::Unit => false,
+        ItemBody::Tuple(fs) | ItemBody::Named(fs) => !fs.is_empty(),
+        ItemBody::Enum(vs) => vs.iter().any(|v| !v.fields.is_empty()),
+    };
+    let via_macro = has_fields && d.chance(8);
+    let (body, control) = if via_macro {
+        labels.push("item_from_macro_rules_with_ty_fragments".into());
+        (format!("{}\n{}", extra.join("\n"), render_via_macro(&item, true)), format!("{}\n{}", extra.join("\n"), render_via_macro(&item, false)))
+    } else {
+        (format!("{}\n{}", extra.join("\n"), item.render(true)), format!("{}\n{}", extra.join("\n"), item.render(false)))
+    };
     let mut c = GenCase::new(body);
     c.runnable = false;
     c.control = Some(control);
